@@ -8,6 +8,7 @@ import (
 	"strings"
 	"sync"
 	"sync/atomic"
+	"time"
 
 	"storj.io/drpc"
 	"storj.io/drpc/drpcconn"
@@ -32,12 +33,15 @@ type Config struct {
 	// RawAPI: the scripted sends and receives use the stream's raw interface (RawWrite + RawFlush, RawRecv) instead
 	// of MsgSend / MsgRecv. Only for worlds with at most one receiver per side and stream (the order of delivery is
 	// then noted after RawRecv returned).
-	RawAPI     bool
-	Stats      bool     // both ends collect per-rpc statistics (CollectStats)
-	Points     []string // enabled scheduling points ("*" = all)
-	PointLimit int
-	NoServer   bool // the B end is left to the test (wire-level peer)
-	NoClient   bool // the A end is left to the test (wire-level peer)
+	RawAPI bool
+	Stats  bool // both ends collect per-rpc statistics (CollectStats)
+	// NoInactivity: Options.InactivityTimeout is set to a negative value, the documented way of saying "no
+	// timeout" (the zero value means the same; no timer is ever armed in this harness)
+	NoInactivity bool
+	Points       []string // enabled scheduling points ("*" = all)
+	PointLimit   int
+	NoServer     bool // the B end is left to the test (wire-level peer)
+	NoClient     bool // the A end is left to the test (wire-level peer)
 	// Handler, when set, replaces the scripted handler on the server side (not serialised).
 	Handler drpc.Handler `json:"-"`
 }
@@ -255,11 +259,16 @@ func (w *World) OpsSnapshot() []OpRec {
 
 // ManagerOptions builds the drpcmanager options from the config.
 func (c Config) ManagerOptions() drpcmanager.Options {
+	var inact time.Duration
+	if c.NoInactivity {
+		inact = -time.Second
+	}
 	return drpcmanager.Options{
-		SoftCancel:       c.Soft,
-		WriterBufferSize: c.WriterBuf,
-		Reader:           drpcwire.ReaderOptions{MaximumBufferSize: c.ReaderMax},
-		Stream:           drpcstream.Options{SplitSize: c.SplitSize, ManualFlush: c.ManualFlush, MaximumBufferSize: c.StreamMaxBuf},
+		InactivityTimeout: inact,
+		SoftCancel:        c.Soft,
+		WriterBufferSize:  c.WriterBuf,
+		Reader:            drpcwire.ReaderOptions{MaximumBufferSize: c.ReaderMax},
+		Stream:            drpcstream.Options{SplitSize: c.SplitSize, ManualFlush: c.ManualFlush, MaximumBufferSize: c.StreamMaxBuf},
 	}
 }
 
@@ -1120,7 +1129,6 @@ var _ = errors.New
 func (a *Actor) GID() int64 { a.mu.Lock(); defer a.mu.Unlock(); return a.gid }
 
 func (a *Actor) setGID() { g := GoID(); a.mu.Lock(); a.gid = g; a.mu.Unlock() }
-
 
 // endCtx is a context whose end the harness decides, including the error it reports (context.DeadlineExceeded
 // without any timer). It implements the AfterFunc method the context package looks for, so deriving contexts from
